@@ -100,8 +100,12 @@ def gen_cases(tier, seed):
         cov, covlen = (1.0, None) if r < 0.4 else ((rng.choice([0.5, 0.75]), None) if r < 0.7 else (1.0, rng.choice([0.4, 0.7, 1.0])))
         lengths = [[u, v, rng.choice([1, 3, 7, 0, 0])] for (u, v) in edges if rng.random() < 0.7] if covlen else []      # zero-length edges: covering "100% of the length" does not force them
         cases.append({"kind": "dagmodel", "spec": gen.spec(nodes, edges, eattr={(u, v): {"len": l} for u, v, l in lengths}), "cons": gen.jl(cons), "cov": cov, "covlen": covlen,
-                      "lengths": lengths, "k": rng.randint(1, 3), "cls": rng.choice(["kPathCover", "kPathCover", "kLeastAbsErrors"]),
+                      "lengths": lengths, "k": rng.randint(1, 3), "cls": rng.choice(["kPathCover", "kPathCover", "kLeastAbsErrors", "kMinPathError"]),
                       "oo": rng.choice([{}, {"optimize_with_safe_paths": False, "optimize_with_safe_sequences": True}, {"optimize_with_safe_paths": True}, {"optimize_with_safe_paths": False}])})
+        if rng.random() < 0.4 and len(nodes) >= 3:
+            # declared additional start / end nodes: paths may begin / stop there, so nothing may be extended THROUGH such a node just because it
+            # has a single in- or out-neighbour in the caller's graph
+            cases[-1]["starts"] = rng.sample(nodes, rng.randint(0, 2)); cases[-1]["ends"] = rng.sample(nodes, rng.randint(0 if cases[-1]["starts"] else 1, 2))
     # corpus: a constraint covered "100% by length" whose first edge has length 0 (need not lie on the covering path)
     zl_e = [("p", "x"), ("x", "y"), ("w", "y"), ("y", "z")]; zl_len = [["p", "x", 1], ["x", "y", 0], ["w", "y", 1], ["y", "z", 3]]
     for cls_ in ("kLeastAbsErrors",):
@@ -352,9 +356,17 @@ def run_dagmodel(case, viol, obs):
         else:
             kw["subpath_constraints_coverage"] = case["cov"]
     if case["cls"] != "kPathCover":
-        kw.update(flow_attr="flow", weight_type=int, trusted_edges_for_safety=(gen.tupl(case["trusted"]) if case.get("trusted") else list(G.edges)))
+        kw.update(flow_attr="flow", weight_type=int)
+        if case["cls"] == "kLeastAbsErrors":
+            kw["trusted_edges_for_safety"] = gen.tupl(case["trusted"]) if case.get("trusted") else list(G.edges)
+    if case.get("starts"):
+        kw["additional_starts"] = list(case["starts"])
+    if case.get("ends"):
+        kw["additional_ends"] = list(case["ends"])
     r = M.safe_call(getattr(fp, case["cls"]), G, **kw)
-    desc = f"{case['cls']} edges={list(G.edges)} cons={cons} cov={case['cov']} covlen={case['covlen']} lengths={case['lengths']} oo={case['oo']}"
+    desc = f"{case['cls']} edges={list(G.edges)} cons={cons} cov={case['cov']} covlen={case['covlen']} lengths={case['lengths']} oo={case['oo']} starts={case.get('starts')} ends={case.get('ends')}"
+    if case.get("starts") or case.get("ends"):
+        obs["c06.dag_models_with_additional_starts_ends"] += 1
     if r[0] != "ok":
         obs["c06.dagmodel_ctor_failed"] += 1
         return None, False
